@@ -95,14 +95,14 @@ pub fn check_flip(libr: &dyn Lib, p: &rf::Params, base: &Tuple, target: u8, bit:
 
 fn bases(ctx: &Ctx) -> Vec<(u8, BaseSpec, &'static str)> {
     let mut out = Vec::new();
-    let per_set = ctx.n(4, 24) as u64;
+    let per_set = ctx.n(6, 24) as u64;
     for set in 0..3u8 {
         for i in 0..per_set {
             let s = hash_of(&(ctx.seed, "c05-base", set, i));
             let msg = BytesSpec { len: [0u32, 1, 33, 137, 256][(s % 5) as usize], constant: None, seed: s };
             let cx = BytesSpec { len: [0u32, 1, 17, 255][((s >> 8) % 4) as usize], constant: None, seed: s ^ 5 };
             let mode = ((s >> 16) % 4) as u8;
-            match i % 4 {
+            match i % 6 {
                 0 => out.push((set, BaseSpec::Honest(HonestSpec { key: Seed32::Uniform(s), msg, ctx: cx, mode: 0, rnd: Seed32::Uniform(s ^ 9) }), "honest:pure")),
                 1 => out.push((set, BaseSpec::Honest(HonestSpec { key: Seed32::Uniform(s), msg, ctx: cx, mode: 1 + (mode % 3), rnd: Seed32::Uniform(s ^ 9) }), "honest:hash")),
                 2 => out.push((
@@ -110,10 +110,20 @@ fn bases(ctx: &Ctx) -> Vec<(u8, BaseSpec, &'static str)> {
                     BaseSpec::Forge(ForgeSpec { rho: Seed32::Uniform(s), seed: s, zkind: ZKind::Uniform, plants: vec![], hkind: HKind::Full, msg, ctx: cx, mode }),
                     "forged:hint_weight=omega",
                 )),
+                3 => out.push((
+                    set,
+                    BaseSpec::Forge(ForgeSpec { rho: Seed32::Uniform(s), seed: s, zkind: ZKind::Uniform, plants: vec![], hkind: HKind::Weight(8 + (s >> 24) as u8 % 24), msg, ctx: cx, mode }),
+                    "forged:hint_weight_small(polynomials without hints)",
+                )),
+                4 => out.push((
+                    set,
+                    BaseSpec::Forge(ForgeSpec { rho: Seed32::Uniform(s), seed: s, zkind: ZKind::Uniform, plants: vec![], hkind: HKind::AllInPoly((s >> 32) as u8), msg, ctx: cx, mode }),
+                    "forged:all_hints_in_one_polynomial",
+                )),
                 _ => out.push((
                     set,
-                    BaseSpec::Forge(ForgeSpec { rho: Seed32::Uniform(s), seed: s, zkind: ZKind::Uniform, plants: vec![], hkind: if i % 8 == 3 { HKind::Empty } else { HKind::Weight((s >> 24) as u8 / 4) }, msg, ctx: cx, mode }),
-                    "forged:hint_weight_small",
+                    BaseSpec::Forge(ForgeSpec { rho: Seed32::Uniform(s), seed: s, zkind: ZKind::Small, plants: vec![], hkind: HKind::Empty, msg, ctx: BytesSpec { len: 255, constant: None, seed: s ^ 7 }, mode }),
+                    "forged:no_hints:ctx255",
                 )),
             }
         }
